@@ -270,7 +270,7 @@ def r_polyguard(idx, rep, rule="R-POLYGUARD"):
         if isinstance(st, ast.If) and ncmp(st.test) is not None:
             op, a, b = ncmp(st.test)
             if isinstance(a, ast.Call) and call_name(a) == "len" and op == "<" and const(b) == 3:
-                empty = any(isinstance(s, ast.Return) and "np.empty((0, 3)" in u(s.value) for s in st.body)
+                empty = any(isinstance(s, ast.Return) and "np.empty((0, 3)" in u(resolved(ccp.node, s.value)) for s in st.body)
                 n += 1
                 rep.check(empty, rule, ccp.key + "|%s" % u(st.test), "%s:%d" % (ccp.module.relpath, st.lineno),
                           "degenerate polygon does not return the empty (0, 3) polygon")
